@@ -36,7 +36,7 @@ Spellings == {[cfg |-> "d", real |-> "d"], [cfg |-> "d/", real |-> "d"], [cfg |-
               [cfg |-> "d/../d", real |-> "d"], [cfg |-> "p/d", real |-> "p/d"], [cfg |-> "d/sub", real |-> "d/sub"], [cfg |-> "/d/", real |-> "d"],
               \* dots that belong to the name: a hidden directory, a trailing dot, a dotted last segment
               [cfg |-> ".d", real |-> ".d"], [cfg |-> "d.", real |-> "d."], [cfg |-> "p/.h", real |-> "p/.h"], [cfg |-> "./.d/", real |-> ".d"]}
-Exts == {".tw", ".tw.html", ".html"}
+Exts == {".tw", ".tw.html", ".html", "tw"}        \* (the extension is what the configuration says, with or without a dot)
 NameCases(sets, spells, exts) ==
   {[files |-> SetToSeq({[path |-> sp.real \o "/" \o RelPath(e, x), src |-> "x" \o e.stem, kind |-> ""] : e \in es}
                        \cup {[path |-> "d/outside.txt", src |-> "o", kind |-> ""], [path |-> "outside" \o x, src |-> "o", kind |-> ""]}),
